@@ -8,9 +8,16 @@ T_NOTE = ("programs (trees/networks/systems) are enumerated or seeded, not all p
           "solver-chosen interior and on-hyperplane points on every run; z3 is trusted")
 
 CHECKS = {
+ "C01": dict(engine="T", cat="translation_validation", ref="5 C01",
+   text="For every generated layer sequence and precondition the real afftree_from_layers builds the tree; the network is written independently as a nested-ite term from the textbook activation definitions. Per linear piece of the tree z3 decides that no real input exists at which the tree is defined outside the precondition, undefined inside it, or differs from the network: exactly (breakpoints and argmax ties included) when all coefficients are dyadic, and up to 1e-6 away from breakpoints otherwise. Networks are seeded (<=6/<=9 activation units, dims<=3).",
+   note=T_NOTE + "; witnesses whose reference region is thinner than tau=1e-6 are attributed to the LP tolerance the property allows and only counted",
+   technique="SMT (z3 QF_LRA) equivalence of each exported tree piece against the network as an ite-term, all inputs symbolic"),
  "C02": dict(engine="T", cat="translation_validation", ref="5 C02",
    text="For every generated operand pair the real compose::<false,false>/apply_func builds h; z3 (QF_LRA) then decides, per linear piece of h, that no real input exists at which h and g(f(x)) differ in definedness or value. Inputs (boundary points included) are universally quantified by the solver; operand shapes are bounded-exhaustive (<=2/<=3 decisions, K in {2,4}), coefficients seeded.",
    note=T_NOTE, technique="SMT (z3 QF_LRA) equivalence of the exported tree against the substitution g(f(x)), all inputs symbolic"),
+ "C17": dict(engine="T", cat="translation_validation", ref="5 C17",
+   text="Every schema generator (dims 1..3/1..5, every row/class, a parameter lattice containing the degenerate points), from_poly on seeded polytopes and from_slice+remove_axes on generated trees is run for real; z3 decides per piece of the produced tree that no real input exists where it differs from the textbook definition written out as an exact piece list (strict/non-strict sides as in the definitions).",
+   note=T_NOTE, technique="SMT (z3 QF_LRA) equivalence of exported schema trees against textbook piecewise definitions, all inputs symbolic"),
 }
 
 NOT_APPLICABLE = {
